@@ -303,3 +303,406 @@ Proof. intros s. vm_compute. reflexivity. Qed.
 Lemma count_truncation_fixed_example : forall s : st,
   compute_sizes (2 ^ 4) 52 (2 ^ 48) 64 s = (Err CE_INVALID_DEVICE, s).
 Proof. intros s. vm_compute. reflexivity. Qed.
+
+(* ================================================================================== *)
+(* Part 2 : the program against any scripted device                                   *)
+(* ================================================================================== *)
+
+(* ---- monad laws, pointwise (no functional extensionality) ----------------------------- *)
+
+Lemma bindM_ext {A B} (m : M A) (f g : A -> M B) s :
+  (forall a s', m s = (Ok a, s') -> f a s' = g a s') -> bindM m f s = bindM m g s.
+Proof. intros H. unfold bindM. destruct (m s) as [[a|e|] s'] eqn:E; auto. Qed.
+
+Lemma bindM_assoc {A B C} (m : M A) (f : A -> M B) (g : B -> M C) s :
+  bindM (bindM m f) g s = bindM m (fun a => bindM (f a) g) s.
+Proof. unfold bindM. destruct (m s) as [[a|e|] s']; reflexivity. Qed.
+
+Lemma bindM_ret_r (m : M unit) s : bindM m (fun _ => ret tt) s = m s.
+Proof. unfold bindM, ret. destruct (m s) as [[[]|e|] s']; reflexivity. Qed.
+
+Lemma bind_ok {A B} (m : M A) (f : A -> M B) s a s' : m s = (Ok a, s') -> bindM m f s = f a s'.
+Proof. intros H. unfold bindM. rewrite H. reflexivity. Qed.
+
+Lemma bind_err {A B} (m : M A) (f : A -> M B) s e s' : m s = (Err e, s') -> bindM m f s = (Err e, s').
+Proof. intros H. unfold bindM. rewrite H. reflexivity. Qed.
+
+Lemma bind_panic {A B} (m : M A) (f : A -> M B) s s' : m s = (Panic, s') -> bindM m f s = (Panic, s').
+Proof. intros H. unfold bindM. rewrite H. reflexivity. Qed.
+
+Lemma bind_lift_ok {A B} (x : A) cls (f : A -> M B) s : bindM (lift (Ok x) cls) f s = f x s.
+Proof. reflexivity. Qed.
+
+(* ---- quiet computations: they keep the handle usable and do not write to the device ---- *)
+
+Definition good (c : ctl) : Prop := 0 <= c_next c < 2 ^ 16 /\ 24 <= c_max_cmd c.
+
+Definition quiet {A} (m : M A) : Prop :=
+  forall c w r c' w', good c -> m (c, w) = (r, (c', w')) -> good c' /\ w_writes w' = w_writes w.
+
+Lemma quiet_ret {A} (a : A) : quiet (ret a).
+Proof. intros c w r c' w' G H. inversion H; subst. auto. Qed.
+Lemma quiet_fail {A} e : quiet (@fail A e).
+Proof. intros c w r c' w' G H. inversion H; subst. auto. Qed.
+Lemma quiet_panic {A} : quiet (@panic A).
+Proof. intros c w r c' w' G H. inversion H; subst. auto. Qed.
+Lemma quiet_lift {A} (x : outcome A) cls : quiet (lift x cls).
+Proof. intros c w r c' w' G H. unfold lift in H. destruct x; inversion H; subst; auto. Qed.
+Lemma quiet_get_ctl : quiet get_ctl.
+Proof. intros c w r c' w' G H. inversion H; subst. auto. Qed.
+Lemma quiet_upd_ctl f : (forall c, good c -> good (f c)) -> quiet (upd_ctl f).
+Proof. intros F c w r c' w' G H. inversion H; subst. auto. Qed.
+Lemma quiet_reg_addr b o : quiet (reg_addr b o).
+Proof. unfold reg_addr. destruct (b + o <? 2 ^ 64); [apply quiet_ret|apply quiet_fail]. Qed.
+Lemma quiet_assert_open : quiet assert_open.
+Proof.
+  intros c w r c' w' G H. unfold assert_open in H. cbn [fst] in H.
+  destruct (c_opened c); inversion H; subst; auto.
+Qed.
+
+Lemma quiet_bind {A B} (m : M A) (f : A -> M B) : quiet m -> (forall a, quiet (f a)) -> quiet (bindM m f).
+Proof.
+  intros Qm Qf c w r c' w' G H. unfold bindM in H.
+  destruct (m (c, w)) as [[a|e|] [c1 w1]] eqn:E.
+  - destruct (Qm _ _ _ _ _ G E) as [G1 W1]. destruct (Qf a _ _ _ _ _ G1 H) as [G2 W2].
+    split; [exact G2|congruence].
+  - inversion H; subst. exact (Qm _ _ _ _ _ G E).
+  - inversion H; subst. exact (Qm _ _ _ _ _ G E).
+Qed.
+
+(* ---- the device side: what a command does to the write log -------------------------------- *)
+
+Lemma on_recv_writes w b : w_writes (snd (on_recv w b)) = w_writes w.
+Proof.
+  unfold on_recv. destruct (w_replies w) as [|r rest]; [reflexivity|].
+  destruct r; try reflexivity;
+    match goal with |- context [if ?x then _ else _] => destruct x end; reflexivity.
+Qed.
+
+Lemma recv_loop_quiet fuel : forall retry ek, quiet (recv_loop fuel retry ek).
+Proof.
+  induction fuel as [|f IH]; intros retry ek c w r c' w' G H; cbn [recv_loop] in H.
+  - inversion H; subst. auto.
+  - destruct (retry <=? 0); [inversion H; subst; auto|].
+    pose proof (on_recv_writes w (c_buflen c)) as W.
+    destruct (on_recv w (c_buflen c)) as [r0 w1]. cbn [snd] in W.
+    destruct r0 as [bytes|e|]; [|inversion H; subst; auto|inversion H; subst; auto].
+    destruct (parse_ack bytes) as [a|e|]; [|inversion H; subst; auto|inversion H; subst; auto].
+    destruct (negb (a_status a =? 0)); [inversion H; subst; auto|].
+    destruct (negb (a_request_id a =? c_next c)); [inversion H; subst; auto|].
+    destruct (a_kind a =? 4).
+    + destruct (view_pending a); [|inversion H; subst; auto|inversion H; subst; auto].
+      destruct (IH _ _ _ _ _ _ _ G H) as [G' W']. split; [exact G'|congruence].
+    + destruct (negb (a_kind a =? ek)); [inversion H; subst; auto|].
+      inversion H; subst. split; [|exact W].
+      destruct G as [G1 G2]. split; [|exact G2]. cbn [c_set_next c_next]. unfold wrapu.
+      apply Z.mod_pos_bound. reflexivity.
+Qed.
+
+Lemma ser_read_norm a n id :
+  serialize_vec (CRead a n) id = serialize_vec (CRead (a mod 2 ^ 64) (n mod 2 ^ 16)) id.
+Proof.
+  rewrite !serialize_vec_enc. unfold enc, enc_header, enc_scd, enc_read_entry. cbn [fst snd scd_kind_id scd_len].
+  rewrite <- (le_bytes_mod 8 a), <- (le_bytes_mod 2 n). rewrite pow256_8, pow256_2. reflexivity.
+Qed.
+
+Lemma ser_write_norm wm id :
+  serialize_vec (CWrite wm) id =
+  serialize_vec (CWrite {| wm_addr := wm_addr wm mod 2 ^ 64; wm_data := wm_data wm;
+                           wm_data_len := wm_data_len wm; wm_len := wm_len wm |}) id.
+Proof.
+  rewrite !serialize_vec_enc. unfold enc, enc_header, enc_scd. cbn [scd_kind_id scd_len wm_addr wm_data wm_len].
+  rewrite <- (le_bytes_mod 8 (wm_addr wm)). rewrite pow256_8. reflexivity.
+Qed.
+
+Lemma conform_read_writes w a n id : 0 <= id < 2 ^ 16 ->
+  w_writes (snd (conform w (serialize_vec (CRead a n) id))) = w_writes w.
+Proof.
+  intros Hid. rewrite ser_read_norm. unfold conform.
+  rewrite layout; [|cbn [cmd_ok]; split; apply Z.mod_pos_bound; reflexivity|exact Hid].
+  cbn [abs_cmd]. destruct (seg_read _ _ _); reflexivity.
+Qed.
+
+Definition wm_of (a : Z) (d : list Z) : write_mem :=
+  {| wm_addr := a; wm_data := d; wm_data_len := zlen d; wm_len := zlen d + 8 |}.
+
+Lemma conform_write_writes w a d id : 0 <= id < 2 ^ 16 -> zlen d <= 65527 -> bytes_ok d ->
+  w_writes (snd (conform w (serialize_vec (CWrite (wm_of a d)) id))) = (a mod 2 ^ 64, d) :: w_writes w.
+Proof.
+  intros Hid Hd Hb. rewrite ser_write_norm. unfold conform.
+  rewrite layout; [| |exact Hid].
+  - cbn [abs_cmd wm_of wm_addr wm_data]. destruct (seg_write _ _ _); reflexivity.
+  - cbn [cmd_ok wm_of wm_addr wm_data wm_data_len wm_len]. unfold wm_ok. cbn [wm_data wm_data_len wm_len].
+    repeat split; try lia; try exact Hb; apply Z.mod_pos_bound; reflexivity.
+Qed.
+
+(* on_send: the command reaches the device unless the bulk-out transfer fails *)
+Lemma on_send_cases w bytes :
+  (exists e w1, on_send w bytes = (Err e, w1) /\ w_writes w1 = w_writes w) \/
+  (exists w1, on_send w bytes = (Ok tt, w1) /\ w_writes w1 = w_writes (snd (conform (w_logev
+      {| w_segs := w_segs w; w_plans := match w_plans w with [] => [] | _ :: r => r end;
+         w_replies := w_replies w; w_cur_ack := w_cur_ack w; w_cur_rid := w_cur_rid w; w_log := w_log w;
+         w_open_err := w_open_err w; w_writes := w_writes w |} (WSend bytes)) bytes))).
+Proof.
+  unfold on_send. destruct (w_plans w) as [|p rest].
+  - cbn [default_plan tp_send_err]. right.
+    destruct (conform _ bytes) as [ack w1] eqn:E. eexists. split; [reflexivity|]. cbn [w_writes snd]. reflexivity.
+  - destruct (tp_send_err p) as [e|].
+    + left. eexists. eexists. split; [reflexivity|]. reflexivity.
+    + right. destruct (conform _ bytes) as [ack w1] eqn:E. eexists. split; [reflexivity|]. reflexivity.
+Qed.
+
+Lemma send_read_quiet a n : quiet (send_cmd (CRead a n)).
+Proof.
+  intros c w r c' w' G H. unfold send_cmd in H.
+  destruct (c_max_cmd c <? cmd_len (CRead a n)); [inversion H; subst; auto|].
+  set (need := Z.max (cmd_len (CRead a n)) (maximum_ack_len (CRead a n))) in H.
+  set (c1 := if c_buflen c <? need then c_set_buflen c need else c) in H.
+  assert (G1 : good c1) by (subst c1; destruct (c_buflen c <? need); exact G).
+  destruct (on_send_cases w (serialize_vec (CRead a n) (c_next c))) as [[e [w1 [E W]]]|[w1 [E W]]];
+    rewrite E in H.
+  - inversion H; subst. auto.
+  - rewrite conform_read_writes in W by apply G. cbn [w_logev w_set_log w_writes] in W.
+    destruct (recv_loop_quiet _ _ _ _ _ _ _ _ G1 H) as [G' W']. split; [exact G'|congruence].
+Qed.
+
+(* a write command: either it never reaches the device (and the result is not Ok), or the device
+   logs exactly this write *)
+Lemma send_write_any a d c w r c' w' : zlen d <= 65527 -> bytes_ok d -> good c ->
+  send_cmd (CWrite (wm_of a d)) (c, w) = (r, (c', w')) ->
+  good c' /\ ((w_writes w' = w_writes w /\ forall x, r <> Ok x) \/ w_writes w' = (a mod 2 ^ 64, d) :: w_writes w).
+Proof.
+  intros Hd Hb G H. unfold send_cmd in H.
+  destruct (c_max_cmd c <? cmd_len (CWrite (wm_of a d))).
+  { inversion H; subst. split; [exact G|]. left. split; [reflexivity|discriminate]. }
+  set (need := Z.max (cmd_len (CWrite (wm_of a d))) (maximum_ack_len (CWrite (wm_of a d)))) in H.
+  set (c1 := if c_buflen c <? need then c_set_buflen c need else c) in H.
+  assert (G1 : good c1) by (subst c1; destruct (c_buflen c <? need); exact G).
+  destruct (on_send_cases w (serialize_vec (CWrite (wm_of a d)) (c_next c))) as [[e [w1 [E W]]]|[w1 [E W]]];
+    rewrite E in H.
+  - inversion H; subst. split; [exact G1|]. left. split; [exact W|discriminate].
+  - rewrite conform_write_writes in W by (try apply G; assumption). cbn [w_logev w_set_log w_writes] in W.
+    destruct (recv_loop_quiet _ _ _ _ _ _ _ _ G1 H) as [G' W']. split; [exact G'|]. right. congruence.
+Qed.
+
+(* ---- DeviceControl::read is quiet ------------------------------------------------------------ *)
+
+Lemma read_loop_quiet fuel : forall addr remaining chunk acc, quiet (read_loop fuel addr remaining chunk acc).
+Proof.
+  induction fuel as [|f IH]; intros addr remaining chunk acc; cbn [read_loop]; [apply quiet_fail|].
+  destruct (remaining <=? 0); [apply quiet_ret|].
+  apply quiet_bind; [apply send_read_quiet|]. intros a.
+  apply quiet_bind; [apply quiet_lift|]. intros data.
+  destruct (negb (zlen data =? Z.min chunk remaining)); [apply quiet_fail|apply IH].
+Qed.
+
+Lemma quiet_verify_range a n : quiet (verify_range a n).
+Proof. unfold verify_range. destruct (_ <? _); [apply quiet_fail|apply quiet_ret]. Qed.
+
+(* one step of a structural proof that a monadic program is quiet *)
+Ltac qstep :=
+  first [ apply quiet_ret | apply quiet_fail | apply quiet_panic | apply quiet_lift | apply quiet_get_ctl
+        | apply quiet_reg_addr | apply quiet_assert_open | apply quiet_verify_range | apply read_loop_quiet
+        | (apply quiet_bind; [|intros ?])
+        | match goal with
+          | |- quiet (if ?b then _ else _) => destruct b
+          | |- quiet (match ?x with _ => _ end) => destruct x
+          end ].
+
+Lemma ctl_read_quiet addr len : quiet (ctl_read addr len).
+Proof. unfold ctl_read. repeat qstep. Qed.
+
+Lemma read_reg_quiet addr len : quiet (read_reg addr len).
+Proof. unfold read_reg. apply quiet_bind; [apply ctl_read_quiet|]. intros bs. apply quiet_ret. Qed.
+
+Ltac qb := apply quiet_bind; [|intros ?].
+
+Lemma good_cache c a b s : good c ->
+  good {| c_opened := c_opened c; c_next := c_next c; c_retry := c_retry c; c_max_cmd := c_max_cmd c;
+          c_max_ack := c_max_ack c; c_buflen := c_buflen c; c_abrm := a; c_sbrm := b; c_sirm := s |}.
+Proof. intros G. exact G. Qed.
+
+Lemma h_abrm_quiet : quiet h_abrm.
+Proof.
+  unfold h_abrm. qb; [apply quiet_get_ctl|]. destruct (c_abrm a); [apply quiet_ret|].
+  qb; [apply read_reg_quiet|]. qb; [|apply quiet_ret]. apply quiet_upd_ctl. intros c G. apply good_cache, G.
+Qed.
+
+Lemma abrm_sbrm_quiet : quiet abrm_sbrm.
+Proof.
+  unfold abrm_sbrm. qb; [apply read_reg_quiet|]. qb; [apply quiet_reg_addr|]. qb; [apply read_reg_quiet|].
+  apply quiet_ret.
+Qed.
+
+Lemma h_sbrm_quiet : quiet h_sbrm.
+Proof.
+  unfold h_sbrm. qb; [apply quiet_get_ctl|]. destruct (c_sbrm a); [apply quiet_ret|].
+  qb; [apply h_abrm_quiet|]. qb; [apply abrm_sbrm_quiet|]. qb; [|apply quiet_ret].
+  apply quiet_upd_ctl. intros c G. apply good_cache, G.
+Qed.
+
+Lemma sbrm_sirm_address_quiet s : quiet (sbrm_sirm_address s).
+Proof.
+  unfold sbrm_sirm_address. destruct (Z.odd (snd s)); [|apply quiet_ret].
+  qb; [apply quiet_reg_addr|]. qb; [apply read_reg_quiet|]. apply quiet_ret.
+Qed.
+
+Lemma h_sirm_quiet : quiet h_sirm.
+Proof.
+  unfold h_sirm. qb; [apply quiet_get_ctl|]. destruct (c_sirm a); [apply quiet_ret|].
+  qb; [apply h_sbrm_quiet|]. qb; [apply sbrm_sirm_address_quiet|].
+  destruct a1; [|apply quiet_fail]. qb; [|apply quiet_ret].
+  apply quiet_upd_ctl. intros c G. apply good_cache, G.
+Qed.
+
+Lemma compute_sizes_quiet al rl rp rt : quiet (compute_sizes al rl rp rt).
+Proof.
+  assert (QA : forall w x a, quiet (align w x a)).
+  { intros w x a. unfold align. destruct (_ <? _); [apply quiet_ret|apply quiet_fail]. }
+  unfold compute_sizes. qb; [apply QA|]. qb; [destruct (_ <? _); [apply quiet_ret|apply quiet_fail]|].
+  qb; [apply QA|]. qb; [destruct (_ =? _); [apply quiet_ret|apply QA]|].
+  qb; [destruct (_ =? _); [apply quiet_ret|apply QA]|]. apply quiet_ret.
+Qed.
+
+Lemma stream_params_quiet : quiet stream_params.
+Proof.
+  unfold stream_params. qb; [apply read_reg_quiet|]. qb; [apply abrm_sbrm_quiet|].
+  qb; [apply sbrm_sirm_address_quiet|]. destruct a1; [|apply quiet_fail].
+  unfold sirm_reg.
+  repeat (qb; [first [apply quiet_reg_addr|apply read_reg_quiet]|]). apply quiet_ret.
+Qed.
+
+(* ---- programs that write: what they add to the device's write log ------------------------ *)
+
+(* [emits m P]: from a usable handle, m leaves a usable handle and appends to the device write
+   log a list l (in execution order) with P result l *)
+Definition emits {A} (m : M A) (P : outcome A -> list (Z * list Z) -> Prop) : Prop :=
+  forall c w r c' w', good c -> m (c, w) = (r, (c', w')) ->
+  good c' /\ exists l, w_writes w' = rev l ++ w_writes w /\ P r l.
+
+Definition not_ok {A} (r : outcome A) : Prop := forall x, r <> Ok x.
+
+Lemma emits_weaken {A} (m : M A) (P Q : outcome A -> list (Z * list Z) -> Prop) :
+  emits m P -> (forall r l, P r l -> Q r l) -> emits m Q.
+Proof.
+  intros E I c w r c' w' G H. destruct (E _ _ _ _ _ G H) as [G' [l [W Pl]]].
+  split; [exact G'|]. exists l. auto.
+Qed.
+
+Lemma emits_ext {A} (m m' : M A) P : (forall s, m s = m' s) -> emits m' P -> emits m P.
+Proof. intros X E c w r c' w' G H. rewrite X in H. exact (E _ _ _ _ _ G H). Qed.
+
+Lemma quiet_emits {A} (m : M A) : quiet m -> emits m (fun _ l => l = []).
+Proof.
+  intros Q c w r c' w' G H. destruct (Q _ _ _ _ _ G H) as [G' W]. split; [exact G'|].
+  exists []. split; [exact W|reflexivity].
+Qed.
+
+(* a quiet step in front of a program whose specification tolerates an early failure *)
+Lemma emits_bind_quiet {A B} (m : M A) (f : A -> M B) (S : outcome B -> list (Z * list Z) -> Prop) :
+  (forall e, S (Err e) []) -> S Panic [] -> quiet m -> (forall a, emits (f a) S) -> emits (bindM m f) S.
+Proof.
+  intros Se Sp Q F c w r c' w' G H. unfold bindM in H.
+  destruct (m (c, w)) as [[a|e|] [c1 w1]] eqn:E; destruct (Q _ _ _ _ _ G E) as [G1 W1].
+  - destruct (F a _ _ _ _ _ G1 H) as [G2 [l [W2 Pl]]]. split; [exact G2|]. exists l. split; [congruence|exact Pl].
+  - inversion H; subst. split; [exact G1|]. exists []. split; [exact W1|apply Se].
+  - inversion H; subst. split; [exact G1|]. exists []. split; [exact W1|exact Sp].
+Qed.
+
+(* one register-sized write: nothing (and not Ok) or exactly this write *)
+Definition one_write (a : Z) (d : list Z) {A} (r : outcome A) (l : list (Z * list Z)) : Prop :=
+  (l = [] /\ not_ok r) \/ l = [(a mod 2 ^ 64, d)].
+
+Lemma emits_send_write a d : zlen d <= 65527 -> bytes_ok d ->
+  emits (send_cmd (CWrite (wm_of a d))) (one_write a d).
+Proof.
+  intros Hd Hb c w r c' w' G H. destruct (send_write_any _ _ _ _ _ _ _ Hd Hb G H) as [G' [[W N]|W]].
+  - split; [exact G'|]. exists []. split; [exact W|]. left. split; [reflexivity|exact N].
+  - split; [exact G'|]. exists [(a mod 2 ^ 64, d)]. split; [exact W|]. right. reflexivity.
+Qed.
+
+(* a writing step followed by quiet steps *)
+Lemma emits_bind_then_quiet {A B} (m : M A) (f : A -> M B) a d :
+  emits m (one_write a d) -> (forall x, quiet (f x)) -> emits (bindM m f) (one_write a d).
+Proof.
+  intros E Q c w r c' w' G H. unfold bindM in H.
+  destruct (m (c, w)) as [[x|e|] [c1 w1]] eqn:Em; destruct (E _ _ _ _ _ G Em) as [G1 [l [W1 P1]]].
+  - destruct (Q x _ _ _ _ _ G1 H) as [G2 W2]. split; [exact G2|]. exists l. split; [congruence|].
+    destruct P1 as [[_ N]|P1]; [exfalso; exact (N x eq_refl)|]. right. exact P1.
+  - inversion H; subst. split; [exact G1|]. exists l. split; [exact W1|].
+    destruct P1 as [[L _]|P1]; [left; split; [exact L|discriminate]|right; exact P1].
+  - inversion H; subst. split; [exact G1|]. exists l. split; [exact W1|].
+    destruct P1 as [[L _]|P1]; [left; split; [exact L|discriminate]|right; exact P1].
+Qed.
+
+(* quiet steps in front of a writing step *)
+Lemma emits_quiet_then {A B} (m : M A) (f : A -> M B) a d :
+  quiet m -> (forall x, emits (f x) (one_write a d)) -> emits (bindM m f) (one_write a d).
+Proof.
+  intros Q E. apply emits_bind_quiet; try assumption.
+  - intros e. left. split; [reflexivity|discriminate].
+  - left. split; [reflexivity|discriminate].
+Qed.
+
+(* ---- DeviceControl::write of a register-sized value ------------------------------------------ *)
+
+Lemma take_all {A} n (l : list A) : zlen l <= n -> take n l = l.
+Proof. intros H. unfold take. apply firstn_all2. unfold zlen in H. lia. Qed.
+Lemma drop_all {A} n (l : list A) : zlen l <= n -> drop n l = [].
+Proof. intros H. unfold drop. apply skipn_all2. unfold zlen in H. lia. Qed.
+
+Lemma write_mem_new_small a d : zlen d <= 65527 -> write_mem_new a d = Ok (a, d).
+Proof.
+  intros H. unfold write_mem_new, into_scd_len.
+  destruct (zlen d <? 2 ^ 16) eqn:E1; [|lia]. cbn [bind].
+  destruct (zlen d + 8 <? 2 ^ 16) eqn:E2; [|lia]. reflexivity.
+Qed.
+
+Lemma mk_write_small a d : zlen d <= 65527 -> mk_write a d = Ok (CWrite (wm_of a d)).
+Proof.
+  intros H. unfold mk_write, mk_write_mem, into_scd_len.
+  destruct (zlen d <? 2 ^ 16) eqn:E1; [|lia]. cbn [bind].
+  destruct (zlen d + 8 <? 2 ^ 16) eqn:E2; [|lia]. reflexivity.
+Qed.
+
+Lemma write_next_first a d m : 0 < zlen d <= m -> zlen d <= 65527 ->
+  write_next {| w_addr := a; w_data := d; w_idx := 0; w_max := m |} =
+  Ok (Some ((a, d), {| w_addr := a; w_data := d; w_idx := zlen d; w_max := m |})).
+Proof.
+  intros H1 H2. unfold write_next. cbn [w_idx w_data w_max w_addr].
+  destruct (0 =? zlen d) eqn:E1; [lia|]. destruct (0 + m <? zlen d) eqn:E2; [lia|].
+  change (drop 0 d) with d. rewrite write_mem_new_small by exact H2. reflexivity.
+Qed.
+
+Lemma write_next_done a d m :
+  write_next {| w_addr := a; w_data := d; w_idx := zlen d; w_max := m |} = Ok None.
+Proof. unfold write_next. cbn [w_idx w_data]. rewrite Z.eqb_refl. reflexivity. Qed.
+
+Definition write1 (a : Z) (d : list Z) : M unit :=
+  do ak <- send_cmd (CWrite (wm_of a d)); do n <- lift (view_write ak) CE_IO;
+  if negb (n =? zlen d) then fail CE_IO else ret tt.
+
+Lemma write_loop_small f a d m s : 0 < zlen d <= m -> zlen d <= 65527 ->
+  write_loop (S (S f)) {| w_addr := a; w_data := d; w_idx := 0; w_max := m |} s = write1 a d s.
+Proof.
+  intros H1 H2. cbn [write_loop]. rewrite write_next_first by assumption. rewrite bind_lift_ok.
+  rewrite mk_write_small by exact H2. rewrite bind_lift_ok. unfold write1.
+  apply bindM_ext. intros ak s1 _. apply bindM_ext. intros n s2 _.
+  destruct (negb (n =? zlen d)); [reflexivity|].
+  rewrite write_next_done. rewrite bind_lift_ok. reflexivity.
+Qed.
+
+Lemma write_blocks_small f a d mc s : 0 < zlen d <= mc - 20 -> zlen d <= 65527 ->
+  write_blocks (S (S f)) a d mc s = write1 a d s.
+Proof.
+  intros H1 H2. cbn [write_blocks]. destruct (zlen d =? 0) eqn:E0; [lia|].
+  rewrite (take_all MAX_WRITE d) by (unfold MAX_WRITE; lia).
+  rewrite (drop_all MAX_WRITE d) by (unfold MAX_WRITE; lia).
+  rewrite write_mem_new_small by exact H2. rewrite bind_lift_ok. cbn [fst snd].
+  unfold write_chunks_init, WRITE_HEADER_LEN. destruct (mc <=? 20) eqn:E1; [lia|]. rewrite bind_lift_ok.
+  destruct d as [|b d']; [unfold zlen in H1; cbn [length] in H1; lia|]. cbn [length].
+  transitivity (bindM (write_loop (S (S (length d')))
+                  {| w_addr := a; w_data := b :: d'; w_idx := 0; w_max := mc - 20 |}) (fun _ => ret tt) s).
+  - apply bindM_ext. intros u s1 _. cbn [write_blocks]. change (zlen (@nil Z) =? 0) with true. reflexivity.
+  - rewrite bindM_ret_r. apply write_loop_small; assumption.
+Qed.
